@@ -14,8 +14,13 @@ impl C16 {
         let height = p.w.block.height;
         let now = p.w.block.time.nanos();
         for _ in 0..probes {
-            let sender = if h.rng.chance(1, 30) {
-                p.w.contract.to_string()
+            let own = p.w.contract.to_string();
+            let self_admin = s.admins.iter().any(|a| *a == own);
+            let sender = if h.rng.chance(1, if self_admin { 5 } else { 30 }) {
+                if self_admin {
+                    h.out.count("probes_sent_by_a_proxy_that_is_its_own_admin");
+                }
+                own
             } else {
                 h.rng.pick_cloned(&pl.actors)
             };
@@ -125,6 +130,7 @@ impl Monitor for C16 {
     fn mandatory(&self) -> Vec<&'static str> {
         vec![
             "probes_calling_the_proxy_itself",
+            "probes_sent_by_a_proxy_that_is_its_own_admin",
             "states_probed_at_the_end_of_height_or_time",
             "can_execute_true",
             "can_execute_false",
@@ -140,7 +146,7 @@ impl Monitor for C16 {
         ]
     }
     fn rule(&self) -> &'static str {
-        "states reached by seeded random admin/allowance/permission/spend histories on both proxies (with block advances onto expiry boundaries); in each of ~40 states per history ~25 (sender, message) probes (every CosmosMsg kind; a tenth are calls addressed to the proxy itself: nested execute, freeze, update_admins, garbage; bank sends to the proxy itself): CanExecute is queried, then Execute{[msg]} by the same sender runs on a copy of the same storage, and the two answers must agree. distinct = (proxy kind, sender class, message kind, query answer, execute outcome, allowance missing/expired/empty/live, permission flags)"
+        "states reached by seeded random admin/allowance/permission/spend histories on both proxies, a quarter of which list themselves among their admins (with block advances onto expiry boundaries); in each of ~40 states per history ~25 (sender, message) probes (every CosmosMsg kind; a tenth are calls addressed to the proxy itself: nested execute, freeze, update_admins, garbage; bank sends to the proxy itself): CanExecute is queried, then Execute{[msg]} by the same sender runs on a copy of the same storage, and the two answers must agree. distinct = (proxy kind, sender class, message kind, query answer, execute outcome, allowance missing/expired/empty/live, permission flags)"
     }
     fn assumptions(&self) -> Vec<&'static str> {
         vec!["senders are valid addresses (the property's domain)", "Execute on a storage copy equals Execute 'before any other state change'"]
@@ -148,7 +154,11 @@ impl Monitor for C16 {
     fn run_history(&self, h: &mut Hist) {
         let kind = if h.idx % 4 == 0 { Kind::Whitelist } else { Kind::Subkeys };
         let mut p = Proxy::new(&mut h.rng, kind);
-        let (admins, mutable) = gen_admins(&mut h.rng);
+        let (mut admins, mutable) = gen_admins(&mut h.rng);
+        if matches!(h.idx % 8, 4 | 6) {
+            // a proxy that lists itself among its admins (its address is known before instantiation)
+            admins.push(p.w.contract.to_string());
+        }
         let r = p.instantiate(admins.clone(), mutable);
         h.note(format!("{kind:?} instantiate admins={admins:?} mutable={mutable} => {}", r.class()));
         if !r.is_ok() {
